@@ -129,11 +129,96 @@ func C06(run *hx.Run) {
 			return
 		}
 		c06File(run, probe, writer, path, ps)
+		c06LockStates(run, writer, path)
 		writer.CloseConn("w")
 	}
 }
 
 var errStopPanic = errors.New("verif: deliberate callback panic")
+
+// c06LockStates: another process holds raw POSIX locks in every combination on
+// SQLite's three lock ranges; a read must fail exactly when the protocol says
+// so, and whether it fails or not, it must leave no lock of ours behind.
+func c06LockStates(run *hx.Run, writer *hx.Oracle, path string) {
+	for _, pend := range []string{"", "RD", "WR"} {
+		for _, resv := range []string{"", "WR"} {
+			for _, shar := range []string{"", "RD", "WR"} {
+				var spec []string
+				if pend != "" {
+					spec = append(spec, "pending:"+pend)
+				}
+				if resv != "" {
+					spec = append(spec, "reserved:"+resv)
+				}
+				if shar != "" {
+					spec = append(spec, "shared:"+shar)
+				}
+				state := strings.Join(spec, ",")
+				if state == "" {
+					state = "none"
+				}
+				lh, err := hx.StartLockHolder(path, strings.Join(spec, ","))
+				if err != nil {
+					run.Inconclusive("lock holder: " + err.Error())
+					return
+				}
+				wantFail := pend == "WR" || shar == "WR"
+				for _, opname := range []string{"Select", "SelectRowid", "Columns"} {
+					db, err := sqlittle.Open(path)
+					if err != nil {
+						run.Violation("C06/lock-state/open/"+state, "Open failed: "+err.Error(), nil)
+						continue
+					}
+					n := 0
+					var oerr error
+					switch opname {
+					case "Select":
+						oerr = db.Select("t", func(sqlittle.Row) { n++ }, "id")
+					case "SelectRowid":
+						var r sqlittle.Row
+						r, oerr = db.SelectRowid("t", 5, "id")
+						if r != nil {
+							n++
+						}
+					default:
+						var cs []string
+						cs, oerr = db.Columns("t")
+						n = len(cs)
+					}
+					run.Eval(1)
+					run.Distinct("lockstate/" + state + "/" + opname)
+					run.See("foreign_lock_state", state)
+					key := fmt.Sprintf("C06/lock-state/%s/%s", state, opname)
+					if wantFail && (oerr == nil || n > 0) {
+						run.Violation(key+"/read-admitted", fmt.Sprintf("another process holds [%s]: %s returned err=%v with %d rows; a reader must not enter", state, opname, oerr, n), nil)
+					}
+					if !wantFail && oerr != nil {
+						run.Violation(key+"/read-refused", fmt.Sprintf("another process holds only [%s]: %s failed: %v", state, opname, oerr), nil)
+					}
+					// whatever the outcome: nothing of ours may stay locked
+					var mine []hx.ProcLock
+					if locks, err := hx.FileLocks(path); err == nil {
+						for _, l := range locks {
+							if l.Pid == os.Getpid() {
+								mine = append(mine, l)
+							}
+						}
+					}
+					if len(mine) > 0 {
+						run.Violation(key+"/lock-left-behind", fmt.Sprintf("another process holds [%s]: after %s returned (err=%v) this process still holds %+v", state, opname, oerr, mine), nil)
+					}
+					db.Close()
+				}
+				lh.Release()
+				// and writers can proceed afterwards
+				if err := writer.ExecConn("w", "BEGIN IMMEDIATE", "UPDATE meta SET version=version+1", "COMMIT"); err != nil {
+					writer.ExecConn("w", "ROLLBACK")
+					run.Violation("C06/lock-state/"+state+"/writer-blocked-afterwards", fmt.Sprintf("after the reads under foreign locks [%s] a SQLite writer gets: %v", state, err), nil)
+				}
+			}
+		}
+	}
+}
 
 func c06File(run *hx.Run, probe, writer *hx.Oracle, path string, ps int) {
 	cols := []string{"id", "v", "ver", "pad"}
@@ -171,6 +256,18 @@ func c06File(run *hx.Run, probe, writer *hx.Oracle, path string, ps int) {
 				if n == 5 {
 					panic(errStopPanic)
 				}
+			}, cols...)
+		}},
+		{name: "Select", exit: "nested-select-in-callback", run: func(h *c06Handle, at func()) {
+			n := 0
+			h.hi.Select("t", func(sqlittle.Row) {
+				n++
+				if n == 3 {
+					// a select on the same handle from inside the callback (it may fail; the outer read must stay locked)
+					safely(func() { h.hi.Select("meta", func(sqlittle.Row) {}, "version") })
+					safely(func() { h.hi.Columns("t") })
+				}
+				at()
 			}, cols...)
 		}},
 		{name: "IndexedSelect", exit: "normal", run: func(h *c06Handle, at func()) {
@@ -234,7 +331,7 @@ func c06File(run *hx.Run, probe, writer *hx.Oracle, path string, ps int) {
 		// inject: nothing | second handle in this process | sqlittle in another process
 		injections := []string{"none"}
 		if c.exit == "normal" && (c.name == "Select" || c.name == "IndexedSelect") {
-			injections = append(injections, "other-process-open-select-close", "same-process-open", "same-process-select", "same-process-close")
+			injections = append(injections, "file-grown-after-open", "other-process-open-select-close", "same-process-open", "same-process-select", "same-process-close")
 		}
 		for _, inj := range injections {
 			h, err := c06Open(path, c.corrupt)
@@ -245,6 +342,13 @@ func c06File(run *hx.Run, probe, writer *hx.Oracle, path string, ps int) {
 			var second *sqlittle.DB
 			if inj == "same-process-select" || inj == "same-process-close" {
 				second, _ = sqlittle.Open(path)
+			}
+			if inj == "file-grown-after-open" {
+				// another process appends pages after this handle mapped the file
+				if err := writer.ExecConn("w", "INSERT INTO t(v, ver, pad) SELECT v, ver, pad || 'grown-grown-grown-grown-grown-grown' FROM t LIMIT 150"); err != nil {
+					run.Inconclusive("could not grow the file: " + err.Error())
+				}
+				run.See("injection", inj)
 			}
 			stops := 0
 			inside := false
@@ -258,7 +362,7 @@ func c06File(run *hx.Run, probe, writer *hx.Oracle, path string, ps int) {
 				run.Eval(1)
 				run.Distinct(fmt.Sprintf("%d/%s/%s/%s/%d", ps, c.name, c.exit, inj, stops))
 				// injection happens once, in the middle of the interval
-				if inj != "none" && inside && !injected && stops >= 3 {
+				if inj != "none" && inj != "file-grown-after-open" && inside && !injected && stops >= 3 {
 					injected = true
 					switch inj {
 					case "same-process-open":
